@@ -322,6 +322,12 @@ func (e *Exec) binopTerm(op token.Token, a, b *smt.Term, xt, yt types.Type) Valu
 			if signed {
 				return smt.BvBin(smt.OBvSRem, a, b)
 			}
+			if e.Cfg.UFRem && !b.IsConst() {
+				// x % m abstracted: uninterpreted, constrained only by 0 <= r < m
+				r := smt.App(fmt.Sprintf("urem%d", w), smt.BV(w), a, b)
+				e.pc = append(e.pc, smt.Implies(smt.Not(smt.Eq(b, smt.BVC(w, 0))), smt.BvCmp(smt.OBvUlt, r, b)))
+				return r
+			}
 			return smt.BvBin(smt.OBvURem, a, b)
 		case token.AND:
 			return smt.BvBin(smt.OBvAnd, a, b)
